@@ -51,8 +51,10 @@ Record router := Router {
 
 Definition new_router : router := Router None None empty_snode [].
 
-Definition set_index (r : router) (h : N) := Router (Some h) (rt_miss r) (rt_trie r) (rt_nodes r).
-Definition set_default (r : router) (h : N) := Router (rt_index r) (Some h) (rt_trie r) (rt_nodes r).
+(** [Index(f)], [Default(f)]: a nil [Func] means "none" (it must not end up
+    as a non-nil interface around a nil function). *)
+Definition set_index (r : router) (h : option N) := Router h (rt_miss r) (rt_trie r) (rt_nodes r).
+Definition set_default (r : router) (h : option N) := Router (rt_index r) h (rt_trie r) (rt_nodes r).
 
 (** [Router.add]: [Some (r, true)] = nil error, [Some (r, false)] =
     "path already assigned", [None] = panic (empty route, or the trie
@@ -72,6 +74,16 @@ Definition router_add (r : router) (p : str) (n : rnode) : option (router * bool
 
 (** The two conditions of [Router.Serve], as data: the translator re-reads
     them from the source (Gen/AriesSkel.v) and TiersGen.v compares. *)
+(** Registration as the public methods do it: a nil handler ([None]) is the
+    panic "function is nil", whether it arrives as a nil [Service] or as a
+    nil [Func]. *)
+Definition router_add_svc (r : router) (p : str) (svc : option N) (dir : bool) (m : str)
+  : option (router * bool) :=
+  match svc with
+  | None => None
+  | Some h => router_add r p (RNode h dir m)
+  end.
+
 Inductive rcond :=
 | RCIsDir                   (* n.isDir *)
 | RCRelEmpty                (* c.Rel() == "" *)
